@@ -10,7 +10,41 @@ import (
 
 type Locker = sync.Locker
 type Map = sync.Map
-type Pool = sync.Pool
+
+// Pool is a deterministic sync.Pool: a last-in-first-out free list that never
+// drops an item (one of the behaviours the real pool may show; the real one
+// keeps per-P caches and would make runs irreproducible).
+type Pool struct {
+	New   func() any
+	mu    sync.Mutex
+	items []any
+}
+
+func (p *Pool) Get() any {
+	simrt.Yield("pool.Get")
+	p.mu.Lock()
+	if n := len(p.items); n > 0 {
+		x := p.items[n-1]
+		p.items = p.items[:n-1]
+		p.mu.Unlock()
+		return x
+	}
+	p.mu.Unlock()
+	if p.New != nil {
+		return p.New()
+	}
+	return nil
+}
+
+func (p *Pool) Put(x any) {
+	if x == nil {
+		return
+	}
+	simrt.Yield("pool.Put")
+	p.mu.Lock()
+	p.items = append(p.items, x)
+	p.mu.Unlock()
+}
 
 // Mutex is the simulated sync.Mutex.
 type Mutex struct{ c simrt.MutexCore }
